@@ -449,3 +449,58 @@ TABLE_PROBE = {
         "    raise AssertionError('alias table refuted: %r' % (_bad,))\n"),
     "tier": "quick",
 }
+
+# =============================================================================================
+# numpy MaskedArray mask-sharing semantics assumed by the engine (gsvc/frames_tables.py:
+# ARR_UNSHARE_METHODS, NP_NEWOBJ_VIEW, ARR_NEWOBJ_VIEW_METHODS), confirmed natively:
+#   (a) `.mask =` on a copy=False masked view writes the mask of the source array
+#   (b) after unshare_mask() the mask is private but the DATA is still shared
+#   (c) unshare_mask() on one view does not unshare another view of the same array
+#   (d) every construction the engine treats as "new array object" makes unshare_mask() effective
+#   (e) functions that may return the very same object (asanyarray, atleast_nd ...) do not
+MASK_NEWOBJ = [
+    "np.ma.array(p)", "np.ma.array(p, ndmin=1, dtype=np.double)", "np.ma.masked_array(p)",
+    "np.ma.asarray(p)", "np.reshape(p, p.shape)", "np.ravel(p)", "np.transpose(p)",
+    "np.swapaxes(p, 0, 1)", "np.squeeze(p)", "p.reshape(-1)", "p.ravel()", "p.squeeze()",
+    "p.transpose()", "p.swapaxes(0, 1)", "p.view()", "p.T", "p[1:]", "p[0]", "p[:, 1:3]",
+    "np.ma.array(p)[1:].reshape(-1)",
+]
+MASK_SAMEOBJ = ["np.ma.asanyarray(p)", "np.asanyarray(p)", "np.atleast_1d(p)", "np.atleast_2d(p)"]
+MASK_PROBE = {
+    "id": "mask-semantics", "entry": "<alias-table>", "opts": "MaskedArray.unshare_mask / shared mask semantics",
+    "setup": "_new = %r\n_same = %r\n" % (MASK_NEWOBJ, MASK_SAMEOBJ),
+    "call": (
+        "_bad = []\n"
+        "def _mk():\n"
+        "    return np.ma.array(A(np.arange(12.0).reshape(3, 4)), mask=np.zeros((3, 4), bool))\n"
+        "# (a)\n"
+        "p = _mk(); a = np.ma.array(p, ndmin=1, dtype=np.double); a.mask = True\n"
+        "if not p.mask.all(): _bad.append('(a) .mask= on copy=False view did not write the source mask')\n"
+        "# (b)\n"
+        "p = _mk(); a = np.ma.array(p); a.unshare_mask(); a.mask = True; a[0, 0] = 99.0; a += 1.0\n"
+        "if p.mask.any(): _bad.append('(b) mask written after unshare_mask')\n"
+        "if p.data[0, 0] != 100.0: _bad.append('(b) data not shared after unshare_mask')\n"
+        "# (c)\n"
+        "p = _mk(); a = np.ma.array(p); b = np.ma.array(p); a.unshare_mask(); b.mask = True\n"
+        "if not p.mask.all(): _bad.append('(c) unshare on a also unshared b')\n"
+        "# (d)\n"
+        "for _e in _new:\n"
+        "    p = _mk(); r = eval(_e)\n"
+        "    if r is p: _bad.append('(d) same object: ' + _e); continue\n"
+        "    r.unshare_mask(); r.mask = True\n"
+        "    if np.ndim(r) and r.size: r.mask[...] = True\n"
+        "    if p.mask.any(): _bad.append('(d) unshare_mask not effective for ' + _e)\n"
+        "    p = _mk(); r = eval(_e); r.mask = True\n"
+        "    if not p.mask.any(): _bad.append('(d) view does not share the mask: ' + _e)\n"
+        "# (e)\n"
+        "for _e in _same:\n"
+        "    p = _mk(); r = eval(_e)\n"
+        "    if r is not p: _bad.append('(e) new object (table could be sharpened): ' + _e)\n"
+        "# views taken after unshare share only the private mask\n"
+        "p = _mk(); a = np.ma.array(p); a.unshare_mask(); b = a.reshape(-1); b.mask = True; c = a[1:]; c.mask = True\n"
+        "if p.mask.any(): _bad.append('view of unshared array writes the source mask')\n"
+        "if [x for x in _bad if not x.startswith('(e) new object')]:\n"
+        "    raise AssertionError('masked array semantics refuted: %r' % (_bad,))\n"),
+    "tier": "quick", "also": [],
+}
+TABLE_PROBES = [TABLE_PROBE, MASK_PROBE]
